@@ -222,10 +222,38 @@ def run(ctx):
             ctx.bad('C17.3-key-format', 'caller-vs-router', 'caller builds %s, router builds %s: a reply can never (or wrongly) match' % (shapes['caller'], shapes['router']),
                     key='CONST:rpc-key-format')
     else:
-        ctx.undecided('C17.3-key-format', 'caller-vs-router', 'key construction not recognised on both sides: %s' % sorted(shapes))
+        from ..families import key_fields as _kf
+        hb = {nm_: tuple(sorted(_kf(P, SB_, op_, 'erltf::types::ExternalPid')[1])) for nm_, SB_, op_ in
+              [('caller', B, it['args'][1])] + [('router', Br, rt_['args'][1]) for _, rt_ in rrem]}
+        if len(hb) == 2 and hb['caller'] and hb['caller'] == hb['router']:
+            ctx.ok('C17.3-key-format', 'caller-vs-router', 'both sides build the key with the same function %s' % list(hb['caller']))
+            ctx.ok('C17.3-key-format', 'removes-use-insert-key', '%d remove(s) in the caller use the very key local of the insert' % len(rem_blocks))
+        else:
+            ctx.undecided('C17.3-key-format', 'caller-vs-router', 'key construction not recognised on both sides: %s' % sorted(shapes))
     for rb, rt in removes:
         if key_local(B, rt['args'][1]) != klocal:
             ctx.bad('C17.3-key-format', 'remove-key', 'a remove in the caller uses a different key than the insert', ctx.where(B, rb), key='CONST:rpc-remove-key')
+
+    # representation-independent: whatever builds the key, it depends on every identifying field of the reply pid
+    ctx.rule('C17.3-key-fields', 'the table key of a call depends on all of id, serial and creation of its reply pid, at the registration and in the router alike '
+             '(dropping one makes two calls - or a call and a stranger\'s message - share an entry once the counter wraps or the creation differs)', floor=2)
+    from ..families import key_fields
+    PIDT = 'erltf::types::ExternalPid'
+    WANT = {'id', 'serial', 'creation'}
+    sites = [('caller:insert', B, it['args'][1], ib)]
+    for rb, rt in rrem:
+        sites.append(('router:remove', Br, rt['args'][1], rb))
+    builders = {}
+    for nm, SB, op, sbb in sites:
+        fs, helpers = key_fields(P, SB, op, PIDT)
+        builders[nm] = tuple(sorted(helpers))
+        if fs >= WANT:
+            ctx.ok('C17.3-key-fields', nm, 'key depends on %s%s' % (sorted(fs), ' via ' + ', '.join(h.rsplit('::', 1)[1] for h in helpers) if helpers else ''), ctx.where(SB, sbb))
+        elif not fs:
+            ctx.undecided('C17.3-key-fields', nm, 'the key could not be traced back to fields of the reply pid')
+        else:
+            ctx.bad('C17.3-key-fields', nm, 'the key depends only on %s of the reply pid; %s is not part of it, so pids differing only there share one table entry: a reply (or an unrelated message) is handed to the wrong caller'
+                    % (sorted(fs), sorted(WANT - fs)), ctx.where(SB, sbb), key='CONST:rpc-key-fields:%s:missing:%s' % (nm, ','.join(sorted(WANT - fs))))
 
     # ---- clause 4: consuming lookup in the router ---------------------------------------------
     ctx.rule('C17.4-consuming-lookup', 'the router takes the sender out of the map (remove), so a duplicate or late reply finds nothing; the reply is sent on the removed sender', floor=1)
